@@ -333,3 +333,200 @@ Proof.
       destruct (raw_get_complete _ _ _ _ _ _ _ _ HI Hs Hmin Hmax) as [_ Hnn]. congruence.
     + eexists _, _. repeat split; reflexivity.
 Qed.
+
+(* ------------------------------------------------------------------ *)
+(* FirstIndex / LastIndex                                               *)
+Lemma first_last_ok c w d ss t tw : WInvS c w d ss t tw ->
+  first_index_op w = RVal (spec_first (abs w d)) /\ last_index_op w = RVal (spec_last (abs w d)).
+Proof.
+  intros HI. destruct (abs_props _ _ _ _ _ _ HI) as (Hsf & Hsl & _).
+  assert (Hcl : st_closed w = false) by apply HI.
+  unfold first_index_op, last_index_op. rewrite Hcl, Hsf, Hsl. split; reflexivity.
+Qed.
+
+(* ------------------------------------------------------------------ *)
+(* StableStore                                                          *)
+Lemma set_stable_ok c w e ss t tw k v n :
+  e_fault e = None -> WInvS c w (e_disk e) ss t tw ->
+  exists r e',
+    set_stable w k v n e = (r, e') /\ e_fault e' = None /\ WInvS c w (e_disk e') ss t tw /\
+    abs w (e_disk e') = abs w (e_disk e) /\
+    dk_files (e_disk e') = dk_files (e_disk e) /\ dk_meta (e_disk e') = dk_meta (e_disk e) /\
+    (r, dk_stable (e_disk e')) =
+      (if key_ok k then (ROk, kv_set k v (dk_stable (e_disk e)))
+       else (if n then ROk else RErrOther, dk_stable (e_disk e))) /\
+    e_m e' = e_m (inc_stable e true).
+Proof.
+  intros He HI. assert (Hcl : st_closed w = false) by apply HI.
+  unfold set_stable. rewrite Hcl. destruct (key_ok k); cbn [negb].
+  - assert (He0 : e_fault (inc_stable e true) = None) by exact He.
+    rewrite (io_ok _ _ He0). eexists _, _. split; [reflexivity|]. split; [reflexivity|].
+    assert (Hini : dk_inited (e_disk e) = true) by apply HI.
+    destruct (WInvS_frame c w (e_disk e) (e_disk (io_post (ASetStable k v) (inc_stable e true))) ss t tw HI)
+      as [G1 G2]; try reflexivity.
+    { cbn. rewrite Hini. reflexivity. }
+    { intros m Hm. exact Hm. }
+    split; [exact G1|]. split; [exact G2|]. repeat split; reflexivity.
+  - eexists _, _. split; [reflexivity|]. split; [exact He|]. split; [exact HI|]. repeat split; reflexivity.
+Qed.
+
+Lemma get_stable_ok c w e ss t tw k :
+  WInvS c w (e_disk e) ss t tw ->
+  get_stable w k e = (RBytes (kv_get k (dk_stable (e_disk e))), inc_stable e false).
+Proof. intros HI. assert (Hcl : st_closed w = false) by apply HI. unfold get_stable. rewrite Hcl. reflexivity. Qed.
+
+(* ------------------------------------------------------------------ *)
+(* Open on the disk of a live (fault-free) state                         *)
+Lemma open_segs_sealed c e : forall ss acc rest,
+  Forall (sealed_ok c (e_disk e)) ss ->
+  open_segs c (ss ++ rest) acc e = open_segs c rest (rev ss ++ acc) e.
+Proof.
+  induction ss as [|s ss IH]; intros acc rest HS; [reflexivity|].
+  inversion HS as [|? ? Hs HS']; subst. cbn [app open_segs].
+  destruct Hs as (H1 & H2 & _ & _ & _ & _ & f & (Hl & Hp & _) & He & _).
+  rewrite H2, N.eqb_refl, H1. cbn [negb]. rewrite Hl.
+  unfold cur_end. rewrite Hp. destruct (N.eqb_spec (df_end f) 0); [contradiction|].
+  rewrite IH by exact HS'. cbn [rev]. rewrite <- app_assoc. reflexivity.
+Qed.
+
+(* the writer RecoverTail builds from the tail file *)
+Definition recovered (t : seginfo) (f : dfile) : wseg :=
+  {| ws_name := name_of t; ws_base := si_base t; ws_min := si_min t; ws_limit := si_size_limit t;
+     ws_n := llen (cur_ents f); ws_off := cur_end f; ws_hdr := (cur_end f =? 0);
+     ws_index_start := cur_seal f;
+     ws_commit_idx := if llen (cur_ents f) =? 0 then 0 else si_base t + llen (cur_ents f) - 1 |}.
+
+Lemma recovered_ok c d t tw : tail_ok c d t tw ->
+  exists f, lookup (name_of t) (dk_files d) = Some f /\
+    tail_ok c d t (recovered t f) /\ ws_commit_idx (recovered t f) = ws_commit_idx tw /\
+    ws_index_start (recovered t f) = ws_index_start tw /\ ws_n (recovered t f) = ws_n tw.
+Proof.
+  intros (H1 & H2 & H3 & H4 & H5 & H6 & H7 & H8 & H9 & H10 & H11 & H12 & H13 & H14 & H15 & H16 & H17
+          & f & Hf & Hn & He & Hs).
+  exists f. destruct Hf as (Hl & Hp & Hc & Hok). split; [exact Hl|].
+  unfold recovered, cur_ents, cur_end, cur_seal. rewrite Hp, Hn, He, Hs.
+  cbn [ws_commit_idx ws_index_start ws_n]. split; [|auto].
+  unfold tail_ok. cbn [ws_n ws_name ws_base ws_min ws_limit ws_off ws_hdr ws_index_start ws_commit_idx].
+  repeat split; auto; try lia.
+  exists f. repeat split; auto.
+Qed.
+
+Lemma garbage_not_listed segs on_disk s n :
+  In s segs -> In n (filter (fun n => negb (listed segs n)) on_disk) -> fname_eqb (name_of s) n = false.
+Proof.
+  intros Hs Hn. apply filter_In in Hn. destruct Hn as [_ Hn]. apply negb_true_iff in Hn.
+  destruct (fname_eqb (name_of s) n) eqn:E; [|reflexivity].
+  assert (Hl : listed segs n = true) by (apply existsb_exists; exists s; split; assumption). congruence.
+Qed.
+
+Lemma cfg_codec_check c : cfg_ok c ->
+  negb (FirstExternalCodecID <=? c_codec c) && negb (c_codec c =? BinaryCodecID) = false.
+Proof.
+  intros ([H|H] & _).
+  - rewrite H, N.eqb_refl. apply andb_false_r.
+  - destruct (N.leb_spec FirstExternalCodecID (c_codec c)); [reflexivity|lia].
+Qed.
+
+Lemma reopen_ok c w e ss t tw :
+  cfg_ok c -> e_fault e = None -> WInvS c w (e_disk e) ss t tw -> st_next_id w + 1 < two64 ->
+  exists w' e' ss' t' tw',
+    open_wal c e = (OOk w', e') /\ e_fault e' = None /\ WInvS c w' (e_disk e') ss' t' tw' /\
+    ws_index_start tw' = 0 /\ abs w' (e_disk e') = abs w (e_disk e) /\
+    dk_stable (e_disk e') = dk_stable (e_disk e) /\
+    st_next_id w <= st_next_id w' /\ st_next_id w' <= st_next_id w + 1 /\ e_m e' = e_m e.
+Proof.
+  intros Hc He HI Hnid. assert (HI0 := HI).
+  destruct HI as (Hcl & Hfa & Hmeta & Hini & Hfr & Hsegs & Htail & HS & HT & HL & Hro).
+  destruct (recovered_ok _ _ _ _ HT) as (f & Hlk & HTr & Hrc & Hri & Hrn).
+  unfold open_wal. rewrite (cfg_codec_check c Hc), Hini. cbn [negb]. rewrite Hmeta. cbv zeta.
+  cbn [persistent ps_segs ps_next_id]. rewrite Hsegs.
+  rewrite (open_segs_sealed c e ss [] [t] HS). cbn [open_segs].
+  assert (Hcod : si_codec t = c_codec c) by apply HT. assert (Hu : si_sealed t = false) by apply HT.
+  rewrite (proj2 (N.eqb_eq _ _) Hcod), Hu. cbn [negb]. unfold seg_recover. rewrite Hlk. cbv zeta.
+  fold (recovered t f). rewrite app_nil_r, rev_append_rev, rev_involutive.
+  set (garbage := filter (fun n => negb (listed (ss ++ [t]) n)) (map fst (dk_files (e_disk e)))).
+  assert (Hgarb : forall s n, In s (ss ++ [t]) -> In n garbage -> fname_eqb (name_of s) n = false).
+  { intros s n Hs Hn. eapply garbage_not_listed; eauto. }
+  destruct (N.ltb_spec 0 (ws_index_start (recovered t f))) as [Hpend|Hpend].
+  - (* a rotation was pending: Open completes it *)
+    fold (seal_info t (ws_commit_idx (recovered t f)) (ws_index_start (recovered t f))).
+    rewrite Hrc. set (istart := ws_index_start (recovered t f)).
+    set (t' := seal_info t (ws_commit_idx tw) istart).
+    rewrite tail_info_snoc.
+    assert (Hn : 0 < ws_n tw) by (apply HT; lia).
+    destruct (tail_commit _ _ _ _ HT) as [Hci Hb1].
+    assert (Hci' : ws_commit_idx tw = si_base t + ws_n tw - 1).
+    { rewrite Hci. destruct (N.eqb_spec (ws_n tw) 0); [lia|reflexivity]. }
+    assert (Hb2 : si_base t + ws_n tw < two64) by apply HT.
+    assert (Hlt := linked_base_lt ss t (Forall_impl _ (sealed_srange c (e_disk e)) HS) HL).
+    change (si_max t') with (ws_commit_idx tw).
+    rewrite !mod64_small by lia.
+    set (si := new_segment c (st_next_id w) (ws_commit_idx tw + 1)).
+    rewrite seg_set_add.
+    2:{ apply Forall_app. split.
+        - eapply Forall_impl; [|exact Hlt]. intros s Hs. cbn [si new_segment si_base] in *. lia.
+        - constructor; [|constructor]. cbn [si new_segment si_base t' seal_info]. lia. }
+    rewrite (io_ok _ _ He). cbn [negb].
+    assert (Hnone : lookup (name_of si) (dk_files (e_disk e)) = None) by (apply Hfr; cbn; lia).
+    rewrite seg_create_ok; [|reflexivity|cbn [si new_segment si_base]; lia|exact Hnone].
+    set (w0 := {| st_next_id := st_next_id w; st_segs := []; st_tail := None; st_rotate := None;
+                  st_failed := false; st_closed := false |}).
+    assert (HSt' : sealed_ok c (e_disk e) t').
+    { unfold t'. rewrite Hci'. apply sealed_of_tail; assumption. }
+    assert (HI' := new_tail_inv c w0 (e_disk e) (ss ++ [t']) (ws_commit_idx tw + 1) Hc ltac:(lia) ltac:(lia) Hnid Hfr Hini).
+    cbv zeta in HI'. fold si in HI'.
+    assert (HI'' : WInvS c (wal_with (st_next_id w0 + 1) ((ss ++ [t']) ++ [si]) (Some (new_wseg si)) w0)
+                     (e_disk (io_post (ACreate (name_of si) (si_size_limit si))
+                        (io_post (ACommit {| ps_next_id := st_next_id w + 1; ps_segs := (ss ++ [t']) ++ [si] |}) e)))
+                     (ss ++ [t']) si (new_wseg si)).
+    { apply HI'; try reflexivity.
+      - apply Forall_app. split; [exact HS|constructor; [exact HSt'|constructor]].
+      - rewrite <- app_assoc. cbn [app]. apply linked_app_intro.
+        + eapply linked_last_replace; [| |exact HL]; reflexivity.
+        + cbn [linked si new_segment si_base si_min t' seal_info si_max]. repeat split; reflexivity. }
+    clear HI'.
+    set (e2 := io_post (ACreate _ _) _) in *.
+    assert (Hdn : forall s n, In s ((ss ++ [t']) ++ [si]) -> In n garbage -> fname_eqb (name_of s) n = false).
+    { intros s n Hs Hn'. apply in_app_or in Hs. destruct Hs as [Hs|[<-|[]]].
+      - apply in_app_or in Hs. destruct Hs as [Hs|[<-|[]]].
+        + apply Hgarb; [apply in_or_app; left; exact Hs|exact Hn'].
+        + change (name_of t') with (name_of t). apply Hgarb; [apply in_or_app; right; left; reflexivity|exact Hn'].
+      - apply fname_eqb_neq. intros Eq. unfold garbage in Hn'. apply filter_In in Hn'. destruct Hn' as [Hn' _].
+        apply in_names_lookup in Hn'. rewrite <- Eq in Hn'. contradiction. }
+    destruct (WInvS_delete_files c _ e2 _ si _ garbage HI'' eq_refl Hdn) as (G1 & G2 & G3 & G4 & G5).
+    eexists _, _, _, _, _. split; [reflexivity|]. split; [exact G3|]. split; [exact G1|].
+    split; [reflexivity|]. split; [|split; [rewrite G4; reflexivity|]].
+    2:{ cbn [wal_with st_next_id w0]. split; [lia|]. split; [lia|exact G5]. }
+    etransitivity; [exact G2|]. rewrite (abs_empty_tail _ _ _ _ _ _ HI'' eq_refl).
+    rewrite (abs_eq _ _ _ _ _ _ HI0), Hsegs, Htail.
+    rewrite (last_index_inv c (e_disk e) ss _ _ HT), (first_index_inv _ _ _ _ _ HS HT).
+    destruct (N.eqb_spec (ws_n tw) 0) as [|_]; [lia|].
+    destruct (N.eqb_spec (si_base t + ws_n tw - 1) 0) as [|_]; [lia|].
+    assert (Hlk2 : forall m, fname_eqb m (name_of si) = false ->
+                     lookup m (dk_files (e_disk e2)) = lookup m (dk_files (e_disk e))).
+    { intros m Hm. unfold e2. rewrite !io_post_disk, lookup_create, Hm. reflexivity. }
+    assert (Econt : flat_map (seg_visible 0 (e_disk e2)) (ss ++ [t'])
+                    = flat_map (seg_visible (ws_commit_idx tw) (e_disk e)) (ss ++ [t])).
+    { rewrite !flat_map_app. f_equal.
+      - apply (flat_map_visible_sealed c); [exact HS|]. intros s Hs. apply Hlk2.
+        apply fname_neq_base. cbn [name_of fst si new_segment si_base]. rewrite Forall_forall in Hlt.
+        specialize (Hlt s Hs). lia.
+      - cbn [flat_map]. f_equal. unfold seg_visible. cbn [t' seal_info si_sealed si_max si_min si_base].
+        rewrite Hu. unfold file_ents. rewrite Hlk2; [reflexivity|].
+        apply fname_neq_base. unfold t', name_of, si, new_segment, seal_info. cbn [fst si_base]. lia. }
+    rewrite Econt. destruct ss as [|s r]; cbn [app]; reflexivity.
+  - (* the tail is recovered as it was *)
+    assert (His : ws_index_start tw = 0) by lia.
+    rewrite rev_append_rev, rev_involutive.
+    set (w1 := {| st_next_id := st_next_id w; st_segs := ss ++ [t]; st_tail := Some (recovered t f);
+                  st_rotate := None; st_failed := false; st_closed := false |}).
+    assert (HI1 : WInvS c w1 (e_disk e) ss t (recovered t f)).
+    { apply WInvS_intro; unfold w1; cbn [st_closed st_failed st_next_id st_segs st_tail st_rotate]; auto.
+      - rewrite Hmeta. unfold persistent. rewrite Hsegs. reflexivity.
+      - rewrite Hri, His. reflexivity. }
+    destruct (WInvS_delete_files c w1 e ss t _ garbage HI1 He Hgarb) as (G1 & G2 & G3 & G4 & G5).
+    eexists _, _, _, _, _. split; [reflexivity|]. split; [exact G3|]. split; [exact G1|].
+    split; [lia|]. split; [|split; [exact G4|cbn [w1 st_next_id]; repeat split; try lia; exact G5]].
+    rewrite G2. unfold abs, first_index, w1. cbn [st_segs st_tail tail_last].
+    rewrite Hsegs, Htail. cbn [tail_last]. rewrite Hrc. reflexivity.
+Qed.
